@@ -21,6 +21,7 @@ Place(S, k, how) ==
   CASE how = "blockMid" -> Block(S, k, (S - k) \div 2)
     [] how = "blockEarly" -> Block(S, k, 1)
     [] how = "spread" -> Spread(S, k)
+    [] how = "blockLate" -> Block(S, k, S - 1 - k)        \* the last k days before the final one: in a span of more than a year, days of the SECOND year
 \* monthly-rule cases: k consecutive days of ONE calendar month without temperature (hourly baselines: or without usage), k on
 \* both sides of 90 % of that month: 30 days (3 of 30 is exactly 90 %: allowed), 31 days, February, and the partial first month
 MonthTargets(st) == IF st = <<2019, 1, 1>> THEN {<<2019, 4>>, <<2019, 5>>, <<2019, 2>>}
@@ -40,6 +41,7 @@ MonthCase ==
 SpanCase ==
   \E c \in Classes, r \in {"baseline", "reporting"}, el \in BOOLEAN, ng \in BOOLEAN, st \in Starts, S \in Spans :
      \E k1 \in Counts(S), k2 \in Counts(S), h1 \in {"blockMid", "spread"}, h2 \in {"blockMid", "blockEarly", "spread"}, ld \in {0, 6}, tr \in {0, 5} :
+       /\ S # 400
        /\ (ld + tr > 0 => r = "baseline" /\ c = "daily" /\ h1 = "blockMid" /\ h2 = "blockMid" /\ el /\ ~ng)
        /\ (r = "reporting" => k1 \in {0, KCrit(S) + 6} /\ ~ng /\ el)       \* usage gaps of a reporting period must not matter
        /\ (c = "billing" => k1 = 0)            \* billing usage is given per period, its gaps are Resample's (C08) question
@@ -48,13 +50,21 @@ SpanCase ==
        /\ (k1 = 0 => h1 = "blockMid") /\ (k2 = 0 => h2 = "blockMid")
        /\ in = [cls |-> c, role |-> r, electric |-> el, negatives |-> ng, start |-> st, span |-> S,
                 omiss |-> Place(S, k1, h1), tmiss |-> Place(S, k2, h2), lead |-> ld, trail |-> tr, mcase |-> FALSE, empty |-> "none"]
+\* a span well over a year (400 days) whose gaps lie in its SECOND year (the last days before the final one)
+LateCase ==
+  \E c \in Classes \ {"billing"}, r \in {"baseline", "reporting"}, el \in BOOLEAN, ng \in BOOLEAN : \E k1 \in Counts(400), k2 \in Counts(400) :
+     /\ 400 \in Spans /\ k1 + k2 > 0
+     /\ (r = "reporting" => k1 \in {0, KCrit(400) + 6} /\ ~ng /\ el)
+     /\ (ng => ~el)
+     /\ in = [cls |-> c, role |-> r, electric |-> el, negatives |-> ng, start |-> <<2019, 1, 1>>, span |-> 400,
+              omiss |-> Place(400, k1, "blockLate"), tmiss |-> Place(400, k2, "blockLate"), lead |-> 0, trail |-> 0, mcase |-> FALSE, empty |-> "none"]
 EmptyCase ==
   \E c \in Classes, r \in {"baseline", "reporting"}, e \in {"usage", "temp"}, el \in BOOLEAN :
      /\ 365 \in Spans
      /\ in = [cls |-> c, role |-> r, electric |-> el, negatives |-> FALSE, start |-> <<2019, 1, 1>>, span |-> 365,
               omiss |-> <<>>, tmiss |-> <<>>, lead |-> 0, trail |-> 0, mcase |-> TRUE, empty |-> e]
 Init ==
-  /\ (MonthCase \/ SpanCase \/ EmptyCase)
+  /\ (MonthCase \/ SpanCase \/ LateCase \/ EmptyCase)
   /\ out = [res |-> "pending"] /\ pc = "call"
 Call == /\ pc = "call"
         /\ LET v == SetToSortSeq(IF in.empty # "none" THEN (IF in.empty = "temp" \/ IsBase(in) THEN {NoData} ELSE {}) ELSE IF Edge(in) THEN Must(in) \cap ({LenName} \cup CoverageNames) ELSE Must(in), LAMBDA a, b : TRUE) IN
